@@ -2,6 +2,7 @@
 package c04
 
 import (
+	"bytes"
 	"fmt"
 	"log/slog"
 	"testing"
@@ -318,3 +319,17 @@ var prop = stats.Prop(R, "message", gen1, check)
 func TestMessage(t *testing.T) { rapid.Check(t, prop) }
 
 func TestReplay(t *testing.T) { R.Replay(t) }
+
+// FuzzMessage runs the same property under Go's coverage-guided fuzzer (the
+// fuzzer's bytes are rapid's entropy, so the oracle is inside the target).
+func FuzzMessage(f *testing.F) {
+	f.Add([]byte{0, 1, 2, 3, 4, 5, 6, 7, 8, 9, 10, 11, 12, 13, 14, 15})
+	f.Add(bytes.Repeat([]byte{0xFF}, 64))
+	f.Fuzz(rapid.MakeFuzz(func(t *rapid.T) {
+		c := gen1(t)
+		o := &stats.Obs{}
+		if err := check(c, o); err != nil {
+			t.Fatalf("C04 violated: %v", err)
+		}
+	}))
+}
